@@ -24,8 +24,7 @@ var zzBinKeys = [][]byte{
 // in block 1, changed or deleted in block 2 (and again in block 3); rolling back to block 1 restores
 // both values exactly, on the running ledger and on a reopened one, and a key the later blocks
 // created is gone.
-// zz:also C11
-// zz:also C13
+// zz:also C11 C13
 func ZZH_C12_binary_keys() {
 	zz.HashForkOff()
 	store := zz.NewStore()
